@@ -32,6 +32,7 @@ EXTENDS Gamma, TLC, Json, IOUtils
 
 Traces == ndJsonDeserialize(IOEnv.EXACT_TRACES)
 KnownSigs == JsonDeserialize(IOEnv.KNOWN_FINDINGS)   \* sequence of open known-finding records
+SeenSigs == JsonDeserialize(IOEnv.SEEN_SIGS)         \* failure classes [dom, op, why] ALREADY REPORTED by an earlier TLC run of this check
 
 VARIABLES t,       \* index of the trace being validated
           l,       \* number of spec-level steps consumed
@@ -192,6 +193,11 @@ SigMatches(sig, dom, st, why) ==
   /\ (sig.op = "" \/ sig.op = st.op)
   /\ (sig.why = "" \/ sig.why = why)
 KnownFor(dom, st, why) == {k \in DOMAIN KnownSigs : SigMatches(KnownSigs[k].sig, dom, st, why)}
+(* TLC stops at the first violation (no -continue for these deep behaviours).  So that ONE frequent failure does not hide
+   the others, c12.py re-runs TLC with the classes (domain, operation, judgement) it has already collected: further
+   instances of such a class are printed as SEEN (and counted by c12.py as cases of that VIOLATION), poison the
+   register and do not stop TLC; every class not yet reported still violates the invariant. *)
+AlreadySeen(dom, st, why) == \E k \in DOMAIN SeenSigs : SeenSigs[k].dom = dom /\ SeenSigs[k].op = st.op /\ SeenSigs[k].why = why
 
 Init == /\ t \in DOMAIN Traces
         /\ l = 0
@@ -216,6 +222,8 @@ Step ==
                          ELSE IF KnownFor(Tr.obs[d].dom, st, j) # {}
                            THEN IF PrintT(<<"KNOWN", KnownSigs[CHOOSE k \in KnownFor(Tr.obs[d].dom, st, j) : TRUE].id,
                                             Tr.id, l + 1, Tr.obs[d].dom, j>>) THEN "known" ELSE "known"
+                           ELSE IF AlreadySeen(Tr.obs[d].dom, st, j)
+                             THEN IF PrintT(<<"SEEN", Tr.id, l + 1, Tr.obs[d].dom, j>>) THEN "seen" ELSE "seen"
                            ELSE IF PrintT(<<"FAIL", Tr.id, l + 1, Tr.obs[d].dom, j, wit(d)>>) THEN j ELSE j]
      IN /\ S' = IF Tr.mode # "exact" \/ IsQuery(st) THEN S
                  \* EXCEPT is evaluated eagerly by TLC (a function constructor would be re-evaluated at every use);
@@ -237,7 +245,7 @@ Compact == [trace |-> Tr.id, step |-> l, verdict |-> [d \in Doms |-> <<Tr.obs[d]
             op |-> IF l = 0 THEN "init" ELSE Tr.steps[l]]
 
 (* THE contract *)
-Exact == \A d \in Doms : verdict[d] \in {"ok", "skip", "known"}
+Exact == \A d \in Doms : verdict[d] \in {"ok", "skip", "known", "seen"}
 (* the generator kept its promise (otherwise the check is broken, not the code) *)
 InLanguage == l = 0 => WellFormed
 ============================================================================
